@@ -12,10 +12,14 @@ from harness import core, disk, diskprop, enc_vdi, record, tlc
 
 LEVEL = "model_checking"
 
+# hdr: header fields the reader must not let influence the mapping (image type 1 normal / 2 fixed / 3 undo / 4 diff,
+# image flags, description)
 PROFILES_QUICK = [
     {"block_size": 4096, "blocks_offset": 512, "full": True},
-    {"block_size": 1 << 20, "blocks_offset": 512, "full": False},
-    {"block_size": 8192, "blocks_offset": 0x200, "data_gap": 4096, "full": True, "sel": 3},
+    {"block_size": 1 << 20, "blocks_offset": 512, "full": False, "hdr": {"image_type": 2, "flags": 0x1}},
+    {"block_size": 8192, "blocks_offset": 0x200, "data_gap": 4096, "full": True, "sel": 3, "hdr": {"image_type": 4, "flags": 0x100, "desc": b"a description"}},
+    {"block_size": 4096, "blocks_offset": 1024, "full": True, "sel": 3, "hdr": {"image_type": 2, "flags": 0x20000}},
+    {"block_size": 4096, "blocks_offset": 512, "full": True, "sel": 4, "hdr": {"image_type": 3, "uuid_link": b"\x33" * 16, "uuid_parent": b"\x44" * 16}},
 ]
 PROFILES_THOROUGH = PROFILES_QUICK + [
     {"block_size": 65536, "blocks_offset": 1024, "full": True},
@@ -41,11 +45,11 @@ def build(img, prof, P=None, size_bytes=None):
         doff = (bo + 4 * n + 511) // 512 * 512 + prof["data_gap"]
     if P is None:
         P = n + 1
-    vf, cell, data_offset, size_b = enc_vdi.build(img, block_size=bs, blocks_offset=bo, data_offset=doff, P=P)
+    vf, cell, data_offset, size_b = enc_vdi.build(img, block_size=bs, blocks_offset=bo, data_offset=doff, P=P, hdr_kw=prof.get("hdr"))
     if size_bytes is not None:
         size_b = size_bytes
         ents = [img["map"][i] for i in range(n)]
-        hdr = enc_vdi.header(bo, data_offset, size_b, bs, n, sum(1 for e in ents if e >= 0))
+        hdr = enc_vdi.header(bo, data_offset, size_b, bs, n, sum(1 for e in ents if e >= 0), **(prof.get("hdr") or {}))
         vf._ext[0] = (0, len(hdr), "bytes", hdr)
     parent = None
     pbase = 0
@@ -74,14 +78,17 @@ def make_trace(tid, rng, nops=30, **opt):
     parent = rng.random() < 0.3
     tail = rng.choice([0, 0, 512, bs // 2, bs - 512])
     img = {"n": n, "cb": 1, "map": {i: mp[i] for i in range(n)}, "size": n, "parent": parent}
-    prof = {"block_size": bs, "blocks_offset": rng.choice([512, 1024, 4096])}
+    prof = {"block_size": bs, "blocks_offset": rng.choice([512, 1024, 4096]),
+            "hdr": {"image_type": rng.choice([1, 1, 2, 3, 4]), "flags": rng.choice([0, 0, 1, 2, 0x100, 0x20000]),
+                    "uuid_link": bytes(rng.randrange(256) for _ in range(16)), "uuid_parent": bytes(rng.randrange(256) for _ in range(16))}}
     size_b = n * bs - tail
     b = build(img, prof, P=npos, size_bytes=size_b)
     s = b.open()
     fresh = b.open()
     rec = record.Recorder(s, size_b, probe=fresh.readoffset, align=opt.get("align"))
     record.random_ops(rec, rng, size_b, nops, unit=bs, big=min(3 * bs + 4096, 6 << 20))
-    return {"tid": tid, "fmt": "vdi", "img": {"n": n, "map": mp, "parent": parent}, "sizeB": size_b, "geo": b.geo(), "events": rec.events}
+    return {"tid": tid, "fmt": "vdi", "img": {"n": n, "map": mp, "parent": parent}, "sizeB": size_b, "geo": b.geo(), "events": rec.events,
+            "image_type": prof["hdr"]["image_type"]}
 
 
 def _attrs(img, prof):
@@ -103,8 +110,16 @@ def run(ctx):
     diskprop.replay_states(ctx, "vdi", sts, PROFILES_THOROUGH if thorough else PROFILES_QUICK, build,
                            attrs_of=_attrs, cap=80 if thorough else 48)
     # 3. B: traces from the real code validated by TLC
-    diskprop.traces(ctx, "vdi", lambda tid, r: make_trace(tid, r, 40 if thorough else 25, many=("mid" if tid % 8 == 0 else None)), 400 if thorough else 64,
-                    "TraceDisk", "TraceDisk.cfg", lambda t: {"format": "vdi", "block_size": t["geo"]["cellB"], "parent": t["img"]["parent"]})
+    import importlib
+    c07 = importlib.import_module("props.c07")
+
+    def mk(tid, r):
+        if tid % 5 == 0:   # a chain of VDI parents; the session also drives the ancestors' own stream objects
+            return c07.trace_vdi_chain(tid, r, 40 if thorough else 25)
+        return make_trace(tid, r, 40 if thorough else 25, many=("mid" if tid % 8 == 0 else None))
+
+    diskprop.traces(ctx, "vdi", mk, 400 if thorough else 80, "TraceDisk", "TraceDisk.cfg",
+                    lambda t: {"format": "vdi", "block_size": t["geo"]["cellB"], "parent": t["img"]["parent"] if "img" in t else True, "chain": t["fmt"] == "chain"})
 
 
 def replay(ctx, body):
@@ -117,7 +132,13 @@ def replay(ctx, body):
     if d.get("kind") in ("trace", "trace-gen"):
         tid = d.get("tid") or d["trace"]["tid"]
         from harness import tracecheck
-        t = make_trace(tid, random.Random(body["seed"] * 9176 + tid), 40 if body.get("tier") == "thorough" else 25)
+        rr = random.Random(body["seed"] * 9176 + tid)
+        nn = 40 if body.get("tier") == "thorough" else 25
+        if tid % 5 == 0:
+            import importlib
+            t = importlib.import_module("props.c07").trace_vdi_chain(tid, rr, nn)
+        else:
+            t = make_trace(tid, rr, nn, many=("mid" if tid % 8 == 0 else None))
         v, _ = tracecheck.validate("TraceDisk", "TraceDisk.cfg", [t])
         print(v)
         return v[tid][0] == "accept"
